@@ -1336,6 +1336,43 @@ pub fn c12_case(seed: u64, idx: u64) -> CaseOut {
     out
 }
 
+/// C12 quantifies over "every file whose expanded form is at most 128 MiB": one file of 128 MiB - 4096 zero bytes
+/// (no signature inside, so the expanded form is the version byte and literal chunks: a few bytes more than the file)
+/// through both wrappers. A bound below 128 MiB anywhere on that path makes this fail.
+pub fn c12_limit_probe() -> CaseOut {
+    let mut out = CaseOut::default();
+    let n = 128 * 1024 * 1024 - 4096;
+    let f = vec![0u8; n];
+    let replay = format!("zeros {n}");
+    crate::util::in_flight(&replay);
+    let fail = |sig: &str, detail: String| Failure { kind: "oracle".into(), signature: sig.into(), detail, replay: replay.clone() };
+    let expanded = match guarded(|| expand_zlib_chunks(&f, 0)) {
+        Run::Done(Ok(c)) => c.len(),
+        _ => 0,
+    };
+    out.tags.push("limit-probe".into());
+    if expanded == 0 || expanded > 128 * 1024 * 1024 {
+        // not a file the property speaks about (cannot happen for zeros unless the container format changes)
+        out.tags.push("limit-probe-skipped".into());
+        return out;
+    }
+    let (rc, rs, guards, z) = call_compress(&f, 1 << 20);
+    if !guards || rc != 0 {
+        out.failures.push(fail("limit-compress-status", format!("WrapperCompressZip returned {rc} (result_size {rs}, guards intact: {guards}) for {n} zero bytes, expanded form {expanded} bytes <= 128 MiB")));
+        return out;
+    }
+    let (rc2, rs2, g2, o2) = call_decompress(&z, n);
+    if !g2 || rc2 != 0 || o2 != f {
+        out.failures.push(fail(
+            "limit-roundtrip",
+            format!("file of {n} bytes whose expanded form has {expanded} bytes (<= 128 MiB): WrapperDecompressZip returned {rc2} (result_size {rs2}, guards intact: {g2}), output equal: {}", o2 == f),
+        ));
+    }
+    out.nontrivial = Some(n as u64);
+    out.sample = Some(format!("limit probe: {n} zero bytes, expanded {expanded} bytes, compressed {} bytes", z.len()));
+    out
+}
+
 // ---------------------------------------------------------------------------------------
 // C14: determinism and concurrent use
 
@@ -1590,6 +1627,11 @@ pub fn run(ctx: &Ctx, prop: &str) -> (Summary, String, String) {
             let n = ctx.n(400, 10000);
             // guard-byte checks are per call; run single-threaded per case but cases in parallel
             merge(&mut s, run_cases(ctx, n, |i| c12_case(seed, i)));
+            // the property's size bound: a file whose expanded form is just below 128 MiB must come back
+            // (skipped under the memory checker, where VH_SCALE_PERCENT < 100)
+            if env_u32("VH_SCALE_PERCENT", 100) >= 100 {
+                merge(&mut s, run_cases(ctx, 1, |_| c12_limit_probe()));
+            }
             (s, "files of the C01 generator through WrapperCompressZip / WrapperDecompressZip with 64 guard bytes on both sides of the output buffer; capacities 0, 1, need-1, need, need+1, random below need (every capacity for outputs <= 48 bytes), for both calls; random non-container bytes as decompress input. Non-trivial = compress succeeded with a large buffer; distinct by file digest.".into(), String::new())
         }
         "C14" => {
@@ -1670,6 +1712,7 @@ pub fn replay(ctx: &Ctx, prop: &str, path: &str) -> bool {
                     _ => report(c01_bytes(&f, "replay", true)),
                 }
             }
+            "zeros" => report(c12_limit_probe()),
             "recreate" => {
                 let t: Vec<&str> = rest.split(' ').collect();
                 let c = unhex(t[0]);
